@@ -562,7 +562,7 @@ fn main() {
                 run_case(&args, &report, cs);
             } else {
                 let shards = args.by_tier(32usize, 64);
-                let per = args.by_tier(24usize, 400);
+                let per = args.by_tier(28usize, 400);
                 let a = args.clone();
                 let r = report.clone();
                 run_shards(&report, &args, shards, move |_i, s| {
